@@ -15,9 +15,16 @@ ASSUMPTIONS = [
     "only the orchestrator's accounting (AgentsMgt handlers, global_metrics) is executed",
     "messages of one agent reach the orchestrator in the order they were produced (FIFO per agent); agents interleave arbitrarily",
     "cost tables are symbolic integers in [-2^40, 2^40]; numpy storage replaced by object arrays",
+    "start-up jobs: the directory round trip is replaced by its effect (Discovery.register_agent / register_computation with "
+    "publish=False on the orchestrator's discovery, as DiscoveryComputation does on a directory notification); an agent "
+    "registers a computation only after receiving its DeployMessage; the deploy / run orders are handled at any point after "
+    "the event the main thread waits for is set",
 ]
 BOUNDS = {"quick": "DPOP on pair and chain-3 (min and max), distributions: one agent per computation / all on one agent / first two together; canonical DPOP schedule, all interleavings of the management messages",
-          "thorough": "quick + triangle and pair with variable cost, all DPOP schedules on the pair"}
+          "thorough": "quick + triangle and pair with variable cost, all DPOP schedules on the pair; start-up on chain-3 with two spare agents",
+          }
+BOUNDS["quick"] += ("; start-up phase (agent registration incl. spare agents sorting before / after the used ones, deployment, "
+                    "computation registration, run order) in every interleaving on pair (2 spares) and chain-3 (1 spare)")
 OUTSIDE = "real threads, timeouts, the solve CLI, other algorithms than DPOP"
 CAP_S = {"quick": 900, "thorough": 5400}
 
@@ -29,10 +36,104 @@ def jobs(tier):
             out.append({"name": "%s-%s" % (s, mode), "spec": spec(s, mode), "fixed": True})
     if tier == "thorough":
         out.append({"name": "pair-min-allsched", "spec": spec("pair", "min"), "fixed": False})
+    # start-up phase: registration of used and spare agents, deployment, computation registration, run order
+    out.append({"name": "startup-pair", "spec": spec("pair", "min"), "startup": True, "spares": ["a", "zz"]})
+    out.append({"name": "startup-chain3", "spec": spec("chain3", "min"), "startup": True,
+                "spares": ["a"] if tier == "quick" else ["a", "zz"]})
     return out
 
 
+def run_startup(eng, p):
+    """Registration / deployment phase of AgentsMgt, every interleaving of the discovery events.
+
+    Events: each agent of the DCOP (the ones used by the distribution and spare ones) registers on the orchestrator's
+    discovery; once `all_registered` is set the main thread's deploy order may be handled (at any later point); every
+    DeployMessage an agent received lets that agent register the computation; once `ready_to_run` is set the run order
+    may be handled.  Oracle: `all_registered` only when every used agent is known; each computation deployed exactly once,
+    on its host; `ready_to_run` only when every computation is registered; when no event is left the run order has been
+    given (otherwise Orchestrator.run() blocks for ever) and each agent was asked to run exactly its computations."""
+    begin(eng, random_modules=["pydcop.algorithms.dpop"], float_modules=["pydcop.algorithms.dpop"])
+    from pydcop.infrastructure.communication import InProcessCommunicationLayer
+    from pydcop.infrastructure.orchestrator import Orchestrator
+    from pydcop.distribution.objects import Distribution
+    from pydcop.dcop.objects import AgentDef
+    inst = Instance(eng, p["spec"], lo=0, hi=0)
+    cg, comps = build_computations(inst.dcop, "dpop", inst.mode)
+    names = [c.name for c in comps]
+    dist_kind = eng.pick(["one_each", "all_on_one", "first_two"], "distribution")
+    if dist_kind == "one_each":
+        host = {n: "b%d" % i for i, n in enumerate(names)}
+    elif dist_kind == "all_on_one":
+        host = {n: "b0" for n in names}
+    else:
+        host = {n: ("b0" if i < 2 else "b%d" % (i - 1)) for i, n in enumerate(names)}
+    used = sorted(set(host.values()))
+    agents = sorted(used + list(p["spares"]))
+    inst.dcop.add_agents([AgentDef(a) for a in agents])
+    mapping = {a: [n for n in names if host[n] == a] for a in used}
+    algo = comps[0].computation_def.algo
+    orch = Orchestrator(algo, cg, Distribution(mapping), InProcessCommunicationLayer(), inst.dcop)
+    mgt, disco = orch.mgt, orch.discovery
+    disco.discovery_computation.send_to_directory = lambda m: None
+    sent = []
+    mgt._send_mgt_msg = lambda agt, msg: sent.append((agt, msg))
+    failures = []
+    orch.stop_agents = lambda *a, **k: failures.append("critical error path")
+    mgt.stop = lambda *a, **k: None
+    orch.repair_only = False
+    mgt.on_start()
+    to_register = list(agents)
+    to_publish = []            # (agent, computation) whose DeployMessage was received
+    registered, published = set(), set()
+    deployed, run_given, trace, bad = False, False, [], []
+    while True:
+        ev = [("agent", a) for a in to_register] + [("comp", ac) for ac in to_publish]
+        if mgt.all_registered.is_set() and not deployed:
+            ev.append(("deploy", None))
+        if mgt.ready_to_run.is_set() and not run_given:
+            ev.append(("run", None))
+        if not ev:
+            break
+        kind, arg = ev[eng.choose(len(ev), "startup_sched")]
+        trace.append((kind, arg))
+        n0 = len(sent)
+        if kind == "agent":
+            to_register.remove(arg)
+            registered.add(arg)
+            disco.register_agent(arg, "addr_" + arg, publish=False)
+        elif kind == "comp":
+            to_publish.remove(arg)
+            published.add(arg[1])
+            disco.register_computation(arg[1], arg[0], publish=False)
+        elif kind == "deploy":
+            deployed = True
+            mgt.on_message("orchestrator", type("M", (), {"type": "_orchestrator_deploy_computations"})(), 0.0)
+            for agt, msg in sent[n0:]:
+                if msg.type == "deploy":
+                    to_publish.append((agt, msg.comp_def.node.name))
+        else:
+            run_given = True
+            mgt.on_message("orchestrator", type("M", (), {"type": "_orchestrator_run_computations"})(), 0.0)
+        if mgt.all_registered.is_set() and not set(used) <= registered:
+            bad.append("all_registered set while %s not registered" % sorted(set(used) - registered))
+        if mgt.ready_to_run.is_set() and not set(names) <= published:
+            bad.append("ready_to_run set while %s not deployed" % sorted(set(names) - published))
+    deploys = sorted((a, m.comp_def.node.name) for a, m in sent if m.type == "deploy")
+    runs = {a: sorted(m.computations) for a, m in sent if m.type == "run_computations"}
+    eng.notes["outcome"] = {"dist": dist_kind, "trace": [str(t) for t in trace], "deploys": deploys, "bad": bad}
+    eng.prove(not failures, "the orchestrator hit its critical-error path during start-up", detail=str(trace))
+    eng.prove(not bad, "all_registered / ready_to_run raised too early", detail=str((bad, trace)))
+    eng.prove(deploys == sorted((host[n], n) for n in names),
+              "computations were not deployed exactly once each on their host", detail=str((deploys, trace)))
+    eng.prove(deployed and run_given, "the run order is never given: Orchestrator.run() would block for ever",
+              detail=str(trace))
+    eng.prove({a: r for a, r in runs.items() if r} == {a: sorted(mapping[a]) for a in used},
+              "agents were not asked to run exactly the computations they host", detail=str((runs, trace)))
+
+
 def run(eng, p):
+    if p.get("startup"):
+        return run_startup(eng, p)
     begin(eng, random_modules=["pydcop.algorithms.dpop"], float_modules=["pydcop.algorithms.dpop"])
     import pydcop.infrastructure.orchestrator as orch_mod
     from pydcop.infrastructure.communication import InProcessCommunicationLayer
